@@ -21,6 +21,7 @@ META = {
         "NaN rule: valid weight W of non-missing neighbours, result = renormalised value if W>1/2 else NaN; for scattered NaNs either the node-wise reading (a neighbour is missing if any element of its slice is NaN - what the code does) or the element-wise reading is accepted",
         "nearest: node with the larger weight; targets within 1e-12 of half way accept either node",
         "NaN threshold: a valid weight within 1e-12 of one half that is not exactly one half in rational arithmetic accepts either outcome (equally valid float evaluations of the weight differ in the last bit); exactly one half must give a missing value",
+        "datetime grids and targets are generated in every datetime64 unit (ns, s, ms, us), independently of each other",
         "datetime targets are whole seconds (the library converts 'time' targets through to_datetime64, which truncates to seconds)",
         "spectra: NaN-free values; 1D moments compared with interp(a1*e)/interp(e) at 1e-9 where interp(e) > 1e-9*max(e)",
     ],
@@ -111,12 +112,15 @@ def axis_case(draw):
         variables.append({"name": f"var{v}", "dims": dims, "kind": vkind, "nan": nan})
     tg, scalar = draw(targets_for(xp, kind))
     return {"coord": cname, "ckind": kind, "xp": xp, "sizes": passive_sizes, "vars": variables,
-            "seed": seed, "targets": tg, "scalar": scalar, "nearest": draw(st.integers(0, 3)) == 0}
+            "seed": seed, "targets": tg, "scalar": scalar, "nearest": draw(st.integers(0, 3)) == 0,
+            # datetime axes and targets come in any datetime64 unit (files store s / ms / us; pandas 3 keeps the unit)
+            "grid_unit": draw(st.sampled_from(["ns", "ns", "s", "ms", "us"])),
+            "target_unit": draw(st.sampled_from(["ns", "ns", "s", "ms", "us"]))}
 
 
-def _coord_values(kind, xs):
+def _coord_values(kind, xs, unit="ns"):
     if kind == "time":
-        return np.array(xs, dtype="int64").astype("datetime64[s]").astype("datetime64[ns]")
+        return np.array(xs, dtype="int64").astype("datetime64[s]").astype(f"datetime64[{unit or 'ns'}]")
     return np.array(xs, dtype=float)
 
 
@@ -124,7 +128,7 @@ def build_dataset(c):
     import xarray
     rng = np.random.default_rng(c["seed"])
     xp = c["xp"]
-    coords = {c["coord"]: _coord_values(c["ckind"], xp)}
+    coords = {c["coord"]: _coord_values(c["ckind"], xp, c.get("grid_unit"))}
     for p, s in c["sizes"].items():
         coords[p] = np.arange(s, dtype=float) * 1.5
     data = {}
@@ -197,12 +201,14 @@ def run_axis(c):
     kind = c["ckind"]
     cname = c["coord"]
     tg = c["targets"]
-    tv = _coord_values(kind, tg)
+    tv = _coord_values(kind, tg, c.get("target_unit"))
     arg = tv[0] if c["scalar"] else tv
     before = {k: v.copy() for k, v in raw.items()}
     out = f(arg, ds, coordinate_name=cname, nearest_neighbour=c["nearest"])
     classes = ["axis_" + kind, "descending" if c["xp"][0] > c["xp"][-1] else "ascending",
                "nearest" if c["nearest"] else "linear"]
+    if kind == "time":
+        classes.append(f"grid_{c.get('grid_unit', 'ns')}_targets_{c.get('target_unit', 'ns')}")
     xp = np.array(c["xp"], dtype=float if kind != "time" else "int64")
     tt = [float(t) if kind != "time" else int(t) for t in tg]
     nontriv = False
@@ -350,7 +356,7 @@ def run_spectrum(c):
     snapshot = {k: np.asarray(spec.dataset[k].values).tobytes() for k in spec.dataset.variables}
     if mode.startswith("time"):
         xp = np.array(sc["time"], dtype="int64")
-        tv = _coord_values("time", tg)
+        tv = _coord_values("time", tg, ("ns", "s", "ms", "us")[len(tg) % 4])
         out = spec.interpolate({"time": tv}, extrapolation_value=ex)
         ax = 0
         tt = [int(t) for t in tg]
